@@ -93,3 +93,19 @@ Example C04_rfc5769_wrong_key : decode dec_ok_full (validating (flip_last stk)) 
 Proof. exact rfc5769_request_wrong_key. Qed.
 Example C04_rfc8489_b1 : decode dec_ok_full (validating ltk) sample_long_term_sha256 = WOk 156 [0; 1; 2; 3].
 Proof. exact rfc8489_b1_validates. Qed.
+
+(* ---- which bytes the MAC covers, by the Rust text itself: get_input_text of raw.rs (with RawMessage::decode and the
+   attribute iterator it calls) is translated by tools/rs2v.py from /repo's CURRENT source on every run (Generated/Code.v).
+   For ALL byte strings and attribute types the translated code never panics, never runs out of fuel, and returns exactly
+   the text the model `input_text` of the theorems above returns (an error where the model has one); on a buffer whose
+   header MessageHeader::decode refuses it returns an error (the model's input_text is only ever called by Wire.decode after
+   the same header check, hence the case split).  Proofs/CodeAgreeRaw.v *)
+From Rustun Require Import Base.GRes Generated.Code Proofs.CodeAgreeRaw.
+Theorem C04_code_input_text_is_model : forall b ty, Tlv.bytes_ok b = true ->
+  (Wire.hdr_valid b = true ->
+     gen_get_input_text (S (length b)) b ty
+     = GOk (match InputText.input_text b ty with Tlv.Ok t => Some t | _ => None end)
+     /\ InputText.input_text b ty <> Tlv.Panic)
+  /\ (Wire.hdr_valid b = false -> gen_get_input_text (S (length b)) b ty = GOk None).
+Proof. exact CodeAgreeRaw.gen_get_input_text_is_model. Qed.
+Print Assumptions C04_code_input_text_is_model.
